@@ -95,6 +95,19 @@ impl SegmentIndexWriter {
         Ok(())
     }
 
+    /// Cuts the index file back to the given size (what a failed write may have left behind is removed).
+    pub async fn truncate(&mut self, size: u64) -> Result<(), IggyError> {
+        self.file
+            .set_len(size)
+            .await
+            .with_error_context(|error| {
+                format!("Failed to truncate index file: {}. {error}", self.file_path)
+            })
+            .map_err(|_| IggyError::CannotWriteToFile)?;
+        self.index_size_bytes.store(size, Ordering::Release);
+        Ok(())
+    }
+
     pub async fn fsync(&self) -> Result<(), IggyError> {
         self.file
             .sync_all()
